@@ -10,6 +10,7 @@ CONSTANTS
   MaxChanges = 100000
   MaxCancels = 100000
   SkipCancelled = TRUE
+  FastPath = FALSE
   Timely = FALSE
   StallBound = 1024
   BypassBound = 3
